@@ -3,6 +3,7 @@ package vkit
 import (
 	"context"
 	"fmt"
+	"io"
 	"net"
 	"net/http"
 	"net/http/httptest"
@@ -71,6 +72,8 @@ type WorldOpts struct {
 	Conf  *config.Configuration // nil: default configuration
 	Mode  config.OperationMode
 	Cache cache.Cache // nil: no cache in the request context (heimdall falls back to its noop cache)
+	// LogLevel: "" = logging disabled, otherwise trace, debug, info, warn, error (the output is discarded)
+	LogLevel string
 }
 
 // World is a complete in-process heimdall: real mechanism catalogue, rule factory, repository,
@@ -96,6 +99,7 @@ type World struct {
 	grpcConn *grpc.ClientConn
 	grpcCli  envoy_auth.AuthorizationClient
 	lis      *bufconn.Listener
+	log      zerolog.Logger
 }
 
 // DefaultConf returns heimdall's default configuration (as the loader starts with).
@@ -130,8 +134,18 @@ func NewWorld(o WorldOpts) (*World, error) {
 		conf.Prototypes = &config.MechanismPrototypes{}
 	}
 
+	// what is logged goes nowhere; on which level heimdall logs is an operator's setting like any other
 	log := zerolog.Nop()
-	w := &World{Conf: conf, Mode: o.Mode, Watcher: &RecWatcher{}, KHR: NewKHR()}
+	if o.LogLevel != "" {
+		lvl, err := zerolog.ParseLevel(o.LogLevel)
+		if err != nil {
+			return nil, err
+		}
+
+		log = zerolog.New(io.Discard).Level(lvl)
+	}
+
+	w := &World{Conf: conf, Mode: o.Mode, Watcher: &RecWatcher{}, KHR: NewKHR(), log: log}
 
 	mf, err := mechanisms.NewMechanismFactory(conf, log, w.Watcher, w.KHR, nopObserver{})
 	if err != nil {
@@ -200,7 +214,7 @@ func (w *World) GRPC() envoy_auth.AuthorizationClient {
 	w.grpcOnce.Do(func() {
 		// (a small buffer: the pipes of a closed connection stay referenced by the deadline timers of the transport for a while)
 		w.lis = bufconn.Listen(1 << 14)
-		w.grpcSrv = grpcv3.VerifNewService(w.Conf, w.Cache, zerolog.Nop(), w.Exec)
+		w.grpcSrv = grpcv3.VerifNewService(w.Conf, w.Cache, w.log, w.Exec)
 
 		go func() { _ = w.grpcSrv.Serve(w.lis) }()
 
